@@ -9,13 +9,18 @@ git -C /repo worktree remove --force $WT 2>/dev/null; git -C /repo worktree add 
 cd $WT
 # the agents' RUN.txt sometimes cd into their own worktree / apply the patch themselves: strip that, we do it here
 grep -v -E '^\s*(cd /tmp/seed-|git apply|git checkout|git stash)' $SRC/demo/RUN.txt | sed 's/^\(.*\) && rm \(.*\)$/rm \2/' > $DST/RUN.filtered.sh
-( bash -e $DST/RUN.filtered.sh ) > $DST/demo_clean.log 2>&1; CLEAN=$?
+( bash -e -o pipefail $DST/RUN.filtered.sh ) > $DST/demo_clean.log 2>&1; CLEAN=$?
 git checkout -q -- . ; git clean -fdq
-git apply $SRC/patch.diff || { echo "patch does not apply"; exit 2; }
-( bash -e $DST/RUN.filtered.sh ) > $DST/demo_mutated.log 2>&1; MUT=$?
+git apply $SRC/patch.diff || git apply -3 $SRC/patch.diff || { echo "$P-$M patch does not apply"; cd /verif; git -C /repo worktree remove --force $WT; exit 2; }
+( bash -e -o pipefail $DST/RUN.filtered.sh ) > $DST/demo_mutated.log 2>&1; MUT=$?
 git clean -fdq -e '*.go~' ; git status --short | grep -v '^ M' | awk '{print $2}' | xargs -r rm -rf
 PKGS=$(grep '^+++ b/' $SRC/patch.diff | sed 's#+++ b/##' | xargs -n1 dirname | sort -u | sed 's#^#./#')
-( go test -modfile=/tmp/seedtools/repo.go.mod -count=1 -vet=off -timeout 20m $PKGS ) > $DST/existing_tests.log 2>&1; EX=$?
+if [ -n "$SKIP_EX" ] && [ -f $DST/meta.json ]; then
+  # existing tests were already run with this change (log kept); re-use that result
+  EX=$(python3 -c "import json;print(json.load(open('$DST/meta.json'))['confirmed']['existing_tests_of_touched_packages_exit'])")
+else
+( go test -modfile=/tmp/seedtools/repo.go.mod -count=1 -vet=off -timeout 40m $PKGS ) > $DST/existing_tests.log 2>&1; EX=$?
+fi
 # tests that fail on the unchanged tree as well (not part of the pinned baseline suite) do not count
 # test binaries that panic at init under the flux stub (fluxstub .../hex.init) do so on the clean tree as well: not runnable here
 if [ $EX -ne 0 ] && grep -q 'fluxstub/stdlib' $DST/existing_tests.log && [ -z "$(grep '^--- FAIL' $DST/existing_tests.log)" ] && ! grep -q -E '\[build failed\]|\[setup failed\]' $DST/existing_tests.log; then
@@ -31,7 +36,7 @@ REPLAY=$(grep -h "VIOLATION" $DST/check.log | head -1 | sed 's/.*replay=\([^ ]*\
 python3 - <<PY
 import json
 a=json.load(open('$DST/meta.agent.json'))
-m={'property':'$P','check_run':'$CHK','mutation':'$M','title':a.get('title'),'what_breaks':a.get('what_breaks'),'needs_to_manifest':a.get('needs_to_manifest'),
+m={'property':'$P','repo_head':'$(git -C /repo rev-parse --short=10 HEAD)','check_run':'$CHK','mutation':'$M','title':a.get('title'),'what_breaks':a.get('what_breaks'),'needs_to_manifest':a.get('needs_to_manifest'),
    'files_changed':a.get('files_changed'),
    'confirmed':{'demo_on_clean_tree_exit':$CLEAN,'demo_with_change_exit':$MUT,'existing_tests_of_touched_packages_exit':$EX,
                 'commands':'bash -e demo/RUN.txt (clean worktree, then after git apply patch.diff); go test -modfile=<stub> -count=1 $PKGS with the change'},
